@@ -81,10 +81,22 @@ def _oracle_two_assignments(names, cols, group=None):
     return ok
 
 
+def _oracle_join_pair_checked(names, cols, right_cols):
+    """C26 rule for natural_join(on=[(k_left, k_right)], check_all_common_keys_in_equi_spec=True): both keys exist on their side, and every
+    column the two tables share is a key ON BOTH SIDES (under its own name); a shared column that is a key of one side only is not covered"""
+    kl, kr = names
+    if kl not in cols or kr not in right_cols:
+        return False
+    covered = {kl} & {kr}
+    return not ((set(cols) & set(right_cols)) - covered)
+
+
 ORACLES = {
     "extend2": lambda names, cols: _oracle_two_assignments(names, cols),
     "project2": lambda names, cols: _oracle_two_assignments(names, cols, group=cols[0]),
+    "join_pair": lambda names, cols: _oracle_join_pair_checked(names, cols, ["g", "z"]),  # E's columns
 }
+SMALL_VOCAB = ("extend2", "project2")  # four symbolic names
 
 
 def harvested_literals():
@@ -105,7 +117,7 @@ class H(forksym.Harness):
         self.cols = list(self.pre.column_names)
         self.arity, self.tpl = step_templates(self.cols)[sname]
         self.vocab = list(dict.fromkeys(self.cols + ["g", "x", "y", "z"] + harvested_literals()))
-        if sname in ORACLES:
+        if sname in SMALL_VOCAB:
             # four symbolic names: a small vocabulary keeps the equality patterns enumerable (two columns, one non-column, equal-to-earlier, fresh)
             self.vocab = list(dict.fromkeys(self.cols[:2] + ["zz_other"]))
         self.fresh_src = f"TableDescription(table_name='d', column_names={self.cols!r})"
@@ -133,7 +145,7 @@ class H(forksym.Harness):
         terms = [z3.String(f"n{i}") for i in range(self.arity)]
         for t in terms:
             eng.assume(z3.Length(t) > 0)
-        if self.sname in ORACLES:
+        if self.sname in SMALL_VOCAB:
             eng.assume(terms[0] != terms[1])  # two different targets (a dict literal cannot hold the same key twice)
         names = self.resolve(terms)
         step = self.tpl(names)
